@@ -3,6 +3,7 @@ import PolyVerif.Props.C04
 import PolyVerif.Props.C05
 import PolyVerif.Props.C11
 import PolyVerif.Props.C12
+import PolyVerif.Props.C12Booth
 import PolyVerif.Props.C10
 import PolyVerif.Props.C13
 import PolyVerif.Props.C08
